@@ -221,6 +221,10 @@ def _run(ix, R):
             whyI = []
             must_be_unconditional(fl, au, whyI, 'the layer term', allow=[(code(fl, 'self.usingKTables'), False)])
             ok = ok and not whyI
+            if au.value.mentions(lambda a: a.head == 'phi') and not ok:
+                raise AnalysisError('the layer term depends on a value carried from one loop iteration to the next (%s): '
+                                    'whether it equals the per-layer expression needs a loop invariant, which this '
+                                    'extractor does not establish' % sorted({a.args[0] for a in map(fl.tab.atoms.__getitem__, au.value.all_atoms()) if a.head == 'phi'}))
             R.check('2.I', 'ALG', site, stmt, ok, key='I += %s %s' % (fmt(fl, au.value), '; '.join(whyI)),
                     detail='I += %s %s\n    expected %s' % (fmt(fl, au.value), '; '.join(whyI), fmt(fl, want)),
                     loc=f.loc(au.node), extracted=fmt(fl, au.value))
@@ -546,6 +550,9 @@ def ktable_terms(ix, R, kt, pfx='7'):
             'sum_g w_g exp(-tau_g/mu) multiplied in, same Planck index as the cross-section routine')
     whyI = []
     must_be_unconditional(fl, au, whyI, 'the layer term')
+    if au.value.mentions(lambda a: a.head == 'phi') and not fl.tab.equal(au.value, want):
+        raise AnalysisError('the layer term depends on a value carried from one loop iteration to the next: whether it '
+                            'equals the per-layer expression needs a loop invariant, which this extractor does not establish')
     R.check(pfx + '.I', 'SIB', site, stmt, fl.tab.equal(au.value, want) and not whyI,
             key='I += %s %s' % (fmt(fl, au.value), '; '.join(whyI)),
             detail='I += %s %s\n    expected %s' % (fmt(fl, au.value), '; '.join(whyI), fmt(fl, want)),
